@@ -18,7 +18,7 @@ def gen(rng, tier):
 
 
 globals().update(acct_prop.make(
-    'C03', components=['portfolio.', 'flow.', 'bt.arrive', 'views.account'],
+    'C03', components=['portfolio.', 'flow.', 'bt.arrive', 'bt.purge', 'views.account'],
     clauses=['C03.'], gen=gen,
     rule=('random trading scenarios with many deposits (receiving delay 0-3 days), withdrawals, financing and repayments across corporate-action '
           'dates; a case is one recorded step (unit net value, units after a flow, the previous-close latch, daily returns, arrival of pending '
